@@ -90,13 +90,13 @@ NATIVE = ["int", "long", "float", "double"]
 
 # ------------------------------------------------------------------ descriptions
 def mkfn(name, nparams=1, ndefaults=0, suffix=None, dsuffix=(), tinst=(), generics=(), hasBuf=False, isCtor=False,
-         usesT=False, block=None):
+         usesT=False, block=None, cpp_if=None):
     # fortran_generic on a function whose C prototype "order" differs from the generic's (no required parameter,
     # or a second template parameter) makes generic_function add a fortran_generic_c variant: not modelled.
     if nparams - ndefaults == 0 or any(len(t["types"]) > 1 for t in tinst):
         generics = ()
     return dict(name=name, nparams=nparams, ndefaults=ndefaults, suffix=suffix, dsuffix=list(dsuffix),
-                tinst=[dict(t) for t in tinst], generics=list(generics), hasBuf=hasBuf, isCtor=isCtor, usesT=usesT, block=block)
+                tinst=[dict(t) for t in tinst], generics=list(generics), hasBuf=hasBuf, isCtor=isCtor, usesT=usesT, block=block, cpp_if=cpp_if)
 
 
 def fn_decl(fn, ov, clsname=None):
@@ -130,6 +130,8 @@ def fn_decl(fn, ov, clsname=None):
 
 def fn_yaml(fn, ov, clsname=None):
     d = {"decl": fn_decl(fn, ov, clsname)}
+    if fn.get("cpp_if"):
+        d["cpp_if"] = fn["cpp_if"]
     if fn["suffix"] is not None:
         d["format"] = {"function_suffix": fn["suffix"]}
     if fn["dsuffix"]:
@@ -181,6 +183,7 @@ def normalize(prog):
         for f in c["fns"]:
             f.setdefault("usesT", False)
             f.setdefault("block", None)
+            f.setdefault("cpp_if", None)
     return prog
 
 
@@ -360,7 +363,7 @@ def enc_fn(fn):
         common.enc(fn["name"]), str(fn["nparams"]), str(fn["ndefaults"]), enc_opt(fn["suffix"]),
         "+".join(common.enc(s) for s in fn["dsuffix"]) or "~", ti,
         "+".join(enc_opt(g) for g in fn["generics"]) or "~",
-        "1" if fn["hasBuf"] else "0", "1" if fn["isCtor"] else "0", "1" if fn.get("usesT") else "0"])
+        "1" if fn["hasBuf"] else "0", "1" if fn["isCtor"] else "0", "1" if fn.get("usesT") else "0", enc_opt(fn.get("cpp_if"))])
 
 
 def enc_container(c):
@@ -528,6 +531,34 @@ def class_template_programs(thorough, r):
             yield dict(library="tpl", wrap=(True, True, False, False), cprefix=None, containers=conts)
 
 
+def cppif_programs(thorough, r):
+    """Overload sets whose members carry `cpp_if` conditions: none, one, some, all the same, all different; as
+    class methods (type-bound generics), free functions and constructors (generic interfaces), with default
+    arguments and fortran_generic lists."""
+    A, B = "if defined(USE_A)", "ifdef USE_B"
+    patterns = [(None, None, A), (A, None, None), (A, A, A), (A, B, None), (A, B, A), (None, A, None), (A, A, None)]
+    k = 0
+    for pat in patterns:
+        for kind in range(4):
+            k += 1
+            def ov(name, extra=()):
+                fns = [mkfn(name, nparams=1 + i, cpp_if=c) for i, c in enumerate(pat)]
+                return fns + list(extra)
+            if kind == 0:
+                conts = [dict(path=[("cls", "Buf")], fns=ov("put") + [mkfn("get"), mkfn("get", nparams=2)])]
+            elif kind == 1:
+                conts = [dict(path=[], fns=ov("put") + [mkfn("single", cpp_if=pat[2])])]
+            elif kind == 2:
+                conts = [dict(path=[("cls", "Buf")], fns=[mkfn("ctor", nparams=i, isCtor=True, cpp_if=c) for i, c in enumerate(pat)]
+                              + [mkfn("put", nparams=2, ndefaults=1, cpp_if=pat[0]), mkfn("put", nparams=3, cpp_if=pat[1])]),
+                         dict(path=[("cls", "Plain")], fns=[mkfn("put"), mkfn("put", nparams=2)])]
+            else:
+                conts = [dict(path=[("nsf", "ns1")], fns=[mkfn("gen", nparams=2, generics=[None, "_dbl"], cpp_if=pat[0]),
+                                                          mkfn("gen", nparams=3, cpp_if=pat[1])]),
+                         dict(path=[("cls", "Buf")], fns=ov("put"))]
+            yield dict(library="cif", wrap=(True, True, False, False), cprefix=None, containers=conts)
+
+
 def table_programs(thorough, r):
     """Programs wrapped for all four languages whose overload sets are adjacent, interleaved or split by other
     declarations, at library level, in classes and in class templates, with and without `block:` groups: the
@@ -658,6 +689,11 @@ def random_program(r):
                                                                suffix=r.choice([None, None, "_c%d" % k])))
         conts.append(dict(path=p, fns=fns))
     wrap = (r.random() < 0.9, r.random() < 0.9, r.random() < 0.3, r.random() < 0.3)
+    if r.random() < 0.15:
+        for c in conts:
+            for f in c["fns"]:
+                if r.random() < 0.4:
+                    f["cpp_if"] = r.choice(["if defined(USE_A)", "ifdef USE_B"])
     if r.random() < 0.25:
         for c in conts:
             for i, f in enumerate(c["fns"]):
@@ -700,21 +736,23 @@ def entries_of(fns):
                 ts = "" if t is None else (t["explicit"] or (FLAT[t["types"][0]] if len(t["types"]) == 1 else "_%d" % i))
                 for k in range(fn["ndefaults"] + 1):
                     e = fn["dsuffix"][k] if k < len(fn["dsuffix"]) else fn["suffix"]
-                    out.append((e if e is not None else "_%d" % k, ts, gs, fn["hasBuf"], True))
+                    out.append((e if e is not None else "_%d" % k, ts, gs, fn["hasBuf"], True, fn.get("cpp_if")))
             continue
         for k in range(fn["ndefaults"]):
             e = fn["dsuffix"][k] if k < len(fn["dsuffix"]) else fn["suffix"]
-            out.append((e, "", gs, fn["hasBuf"], bool(fn["tinst"]) or bool(fn.get("usesT"))))
+            out.append((e, "", gs, fn["hasBuf"], bool(fn["tinst"]) or bool(fn.get("usesT")), fn.get("cpp_if")))
         e = fn["dsuffix"][fn["ndefaults"]] if (fn["ndefaults"] and fn["ndefaults"] < len(fn["dsuffix"])) else fn["suffix"]
         if fn["tinst"]:
             for i, t in enumerate(fn["tinst"]):
                 ts = t["explicit"] or (FLAT[t["types"][0]] if len(t["types"]) == 1 else "_%d" % i)
-                out.append((e, ts, gs, fn["hasBuf"], True))
+                out.append((e, ts, gs, fn["hasBuf"], True, fn.get("cpp_if")))
         else:
-            out.append((e, "", gs, fn["hasBuf"], bool(fn.get("usesT"))))
+            out.append((e, "", gs, fn["hasBuf"], bool(fn.get("usesT")), fn.get("cpp_if")))
     return out
 
 
+DOC_COND_I = []  # documented (interface, module procedure, conditions)
+DOC_COND_T = []  # documented (derived type, generic, binding, conditions)
 TYPE_DOC = []   # filled by documented_names: (derived type, {"generic": [(key, bindings)], "proc": [(binding, impl)]})
 
 
@@ -724,6 +762,8 @@ def documented_names(prog):
     w = prog["wrap"]
     cnames, fspec, generics = [], {}, {}
     del TYPE_DOC[:]
+    del DOC_COND_I[:]
+    del DOC_COND_T[:]
     for c in prog["containers"]:
         cprefix, cscope, fscope, module, cls = scope_info(prog, c["path"])
         tdoc = {"generic": [], "proc": []}
@@ -742,7 +782,8 @@ def documented_names(prog):
             i = 0
             members = []
             u = doc_un_camel(name)
-            for (e, ts, gs, hb, templ) in ents:
+            mconds = []
+            for (e, ts, gs, hb, templ, cif) in ents:
                 ts = ts or ts0
                 if templ:
                     sfx = e or ""
@@ -754,18 +795,23 @@ def documented_names(prog):
                     cnames.append(cprefix + cscope + u + sfx + "_bufferify" + ts)
                 for g in (gs or [""]):
                     members.append((fscope + u + sfx + g + ts).lower())
+                    mconds.append((cif.lower(),) if cif else ())
             fspec.setdefault(module, []).extend(members)
             if cls is None:
                 if len(members) > 1 or any(f["generics"] for f in fns):
                     generics.setdefault(module, {})[(fscope + u).lower()] = sorted(members)
+                    DOC_COND_I.extend(((fscope + u).lower(), m, cd) for m, cd in zip(members, mconds))
             elif fns[0]["isCtor"]:
                 generics.setdefault(module, {})[cls.lower()] = sorted(members)
+                DOC_COND_I.extend((cls.lower(), m, cd) for m, cd in zip(members, mconds))
             else:
                 # type-bound: bindings are F_name_function (no scope), `generic ::` only for several bindings
                 binds = [m[len(fscope):] for m in members]
                 tdoc["proc"].extend((b, m) for b, m in zip(binds, members))
                 if len(binds) > 1:
                     tdoc["generic"].append((u.lower(), tuple(sorted(binds))))
+                    # every binding is a member exactly under the condition (cpp_if) of its own declaration
+                    DOC_COND_T.extend((cls.lower(), u.lower(), b, cd) for b, cd in zip(binds, mconds))
     return cnames, fspec, generics
 
 
@@ -802,7 +848,7 @@ def in_domain(prog):
                 gs = [g if g is not None else "_%d" % j for j, g in enumerate(fn["generics"])]
                 if len(set(gs)) != len(gs) or any(not TOKEN.match(g) for g in gs):
                     return False
-            for (e, ts, gs, hb, templ) in entries_of(fns):
+            for (e, ts, gs, hb, templ, _cif) in entries_of(fns):
                 if e is not None:
                     expl.append(e)
             if any(AUTO.match(e) or not TOKEN.match(e) or e == "_bufferify" for e in expl):
@@ -843,13 +889,15 @@ def c_definitions(text, prefix=None):
     return out
 
 
+IFACE_COND = []  # filled by fortran_entities: (interface, module procedure, preprocessor conditions in force)
 TYPES_OUT = {}   # filled by fortran_entities: derived type -> {"generic": [(key, [bindings])], "proc": [(binding, impl)]}
 
 
 def fortran_types(text):
     TYPES_OUT.clear()
     fortran_entities(text)
-    return {k: {"generic": list(v["generic"]), "proc": list(v["proc"])} for k, v in TYPES_OUT.items()}
+    return {k: {"generic": list(v["generic"]), "proc": list(v["proc"]), "gcond": list(v.get("gcond", []))}
+            for k, v in TYPES_OUT.items()}
 
 
 def fortran_entities(text):
@@ -860,10 +908,18 @@ def fortran_entities(text):
     cur_iface = None
     cur_type = None
     in_contains = False
+    conds = []
     for ln in text.split("\n"):
         s = ln.strip()
         low = s.lower().replace("\t", "")
-        if low.startswith("!") or low.startswith("#"):
+        if low.startswith("#"):
+            # preprocessor context: conditions in force for the following lines
+            if low.startswith("#if"):
+                conds.append(low[1:])
+            elif low.startswith("#endif") and conds:
+                conds.pop()
+            continue
+        if low.startswith("!"):
             continue
         m = re.match(r"^type(?:\s*,\s*[\w\(\) ]+)*\s*(?:::)?\s*(\w+)$", low)
         if m and not in_contains and not low.startswith("type("):
@@ -876,7 +932,16 @@ def fortran_entities(text):
                 continue
             m = re.match(r"^generic\s*::\s*(\w+)\s*=>\s*(.*)$", low)
             if m:
-                TYPES_OUT[cur_type]["generic"].append((m.group(1), [x.strip() for x in m.group(2).split(",")]))
+                binds_ = [x.strip() for x in m.group(2).split(",")]
+                # several `generic :: key => ...` lines of one key extend the same generic
+                for ent in TYPES_OUT[cur_type]["generic"]:
+                    if ent[0] == m.group(1):
+                        ent[1].extend(binds_)
+                        break
+                else:
+                    TYPES_OUT[cur_type]["generic"].append((m.group(1), binds_))
+                for b_ in binds_:
+                    TYPES_OUT[cur_type].setdefault("gcond", []).append((m.group(1), b_, tuple(conds)))
                 continue
             m = re.match(r"^procedure(?:\s*,\s*\w+)*\s*::\s*(\w+)\s*=>\s*(\w+)$", low)
             if m:
@@ -898,6 +963,7 @@ def fortran_entities(text):
         m = re.match(r"^module procedure\s+(\w+)$", low)
         if m and cur_iface:
             ifaces[cur_iface].append(m.group(1))
+            IFACE_COND.append((cur_iface, m.group(1), tuple(conds)))
             continue
         m = re.match(r"^(?:[\w\(\)=,\* ]+\s)?(subroutine|function)\s+(\w+)\s*\(", low)
         if m and not low.startswith("end "):
@@ -1003,7 +1069,9 @@ def oracle_full(ctx, prog, tag):
             return False
         files = shroudrun.read_tree(d, skip_ext=(".log", ".json", ".yaml"))
         cprefix = scope_info(prog, [])[0]
+        del IFACE_COND[:]
         problems, cdefs, ftab = scan_outputs(files, cprefix)
+        icond = sorted(IFACE_COND)
         failed = False
         for key, what in problems:
             failed |= bool(ctx.fail("%s:%s" % (tag, key), what, replay))
@@ -1040,6 +1108,16 @@ def oracle_full(ctx, prog, tag):
         if tg != te:
             failed |= bool(ctx.fail("%s:type-bound-generics" % tag, "type-bound generics differ from the documented ones: generated only %s, documented only %s"
                                     % ([x for x in tg if x not in te], [x for x in te if x not in tg]), replay))
+        tcond = sorted((t, k, b, cd) for fn_, data in files.items() if fn_.endswith(".f")
+                       for t, v in fortran_types(data.decode()).items() if t in doc_types for k, b, cd in v["gcond"])
+        if tcond != sorted(DOC_COND_T):
+            failed |= bool(ctx.fail("%s:type-bound-generic-conditions" % tag, "members of type-bound generics are not in force exactly under their own "
+                                    "cpp_if: generated only %s, documented only %s"
+                                    % ([x for x in tcond if x not in DOC_COND_T], [x for x in DOC_COND_T if x not in tcond]), replay))
+        if icond != sorted(DOC_COND_I):
+            failed |= bool(ctx.fail("%s:interface-member-conditions" % tag, "members of generic interfaces are not in force exactly under their own "
+                                    "cpp_if: generated only %s, documented only %s"
+                                    % ([x for x in icond if x not in DOC_COND_I], [x for x in DOC_COND_I if x not in icond]), replay))
         for t, v in TYPE_DOC:
             have = [p for tt, _, procs in tgot if tt == t for p in procs]
             miss = [p for p in v["proc"] if p not in have]
@@ -1049,7 +1127,7 @@ def oracle_full(ctx, prog, tag):
         lib = common.enc(prog["library"]) if prog.get("cprefix") is None else "P" + common.enc(prog["cprefix"])
         reqs = [("gi %s %s %s" % (w, lib, enc_container(c)),
                  c["path"][-1][1].lower() if (c["path"] and c["path"][-1][0] == "cls") else None) for c in prog["containers"]]
-        GI_REQS.append((prog, reqs, got, sorted((t, k, m) for t, g in tg for k, m in g)))
+        GI_REQS.append((prog, reqs, got, sorted((t, k, m) for t, g in tg for k, m in g), icond, tcond))
         if prog["wrap"][2] or prog["wrap"][3]:
             pyt, luat = [], {}
             for fn_, data in files.items():
@@ -1066,34 +1144,44 @@ def oracle_full(ctx, prog, tag):
 
 def gi_correspondence(ctx, drv):
     """Tie: the model's generic tables (driver op `gi`: module-level interfaces and type-bound generics per
-    class) vs the interfaces / `generic ::` lines parsed from the generated Fortran, for the programs the oracle
-    generated."""
+    class, members with the preprocessor condition in force after the model's emission functions) vs the
+    interfaces / `generic ::` lines parsed with their #if context from the generated Fortran."""
     bad = []
-    lines = [q for _, reqs, _, _ in GI_REQS for q, _ in reqs]
+    lines = [q for item in GI_REQS for q, _ in item[1]]
     if not lines:
         return
     res = iter(drv.run(lines))
-    ntb = 0
-    for prog, reqs, got, tgot in GI_REQS:
-        model, tmodel = [], []
+    ntb = ncond = 0
+    for prog, reqs, got, tgot, icond, tcond in GI_REQS:
+        model, tmodel, mic, mtc = [], [], [], []
         for _, cls in reqs:
             t = next(res)
             if t == "~":
                 continue
             for ent in t.split(";"):
-                kind, k, force, mem = ent.split("=")
+                kind, k, force, mem, conds = ent.split("=")
+                key = common.dec(k).lower()
                 members = tuple(sorted(common.dec(x).lower() for x in mem.split("+")))
                 if force == "1" or len(members) > 1:
+                    cl = []
+                    for mc in conds.split("+"):
+                        m_, c_ = mc.split("@")
+                        cl.append((common.dec(m_).lower(), () if c_ == "N" else (common.dec(c_[1:]).lower(),)))
                     if kind == "M":
-                        model.append((common.dec(k).lower(), members))
+                        model.append((key, members))
+                        mic.extend((key, m_, c_) for m_, c_ in cl)
                     else:
-                        tmodel.append((cls, common.dec(k).lower(), members))
+                        tmodel.append((cls, key, members))
+                        mtc.extend((cls, key, m_, c_) for m_, c_ in cl)
         ctx.count(1)
         ntb += len(tmodel)
-        if sorted(model) != got or sorted(tmodel) != tgot:
-            bad.append({"prog": prog, "model": [sorted(model), sorted(tmodel)], "impl": [got, tgot]})
+        ncond += sum(1 for x in mic + mtc if x[-1])
+        if sorted(model) != got or sorted(tmodel) != tgot or sorted(mic) != icond or sorted(mtc) != tcond:
+            bad.append({"prog": prog, "model": [sorted(model), sorted(tmodel), sorted(mic), sorted(mtc)],
+                        "impl": [got, tgot, icond, tcond]})
     ctx.note("generic_tables_compared", len(GI_REQS))
     ctx.note("type_bound_generics_compared", ntb)
+    ctx.note("conditional_generic_members_compared", ncond)
     if bad:
         ctx.tie_broken("generic-table-correspondence", bad[:3])
 
@@ -1236,7 +1324,7 @@ def distribution(progs):
             "explicit_suffix": 0, "modules_with>=2_classes": 0, "method_name_shared_by_classes": 0,
             "shared_method_overloaded_in_some_single_in_others": 0,
             "class_template_instantiations": 0, "members_using_template_parameter": 0,
-            "scopes_with_block_groups": 0, "non_adjacent_overload_sets": 0, "wrapped_for_python_or_lua": 0}
+            "functions_with_cpp_if": 0, "scopes_with_block_groups": 0, "non_adjacent_overload_sets": 0, "wrapped_for_python_or_lua": 0}
     for p in progs:
         dist["containers"] += len(p["containers"])
         if p.get("cprefix") is not None:
@@ -1252,6 +1340,7 @@ def distribution(progs):
             dist["class_in_namespace"] += bool(path) and path[-1][0] == "cls" and nsdepth >= 1
             dist["class_template_instantiations"] += bool(c.get("tmpl"))
             dist["scopes_with_block_groups"] += any(f.get("block") is not None for f in c["fns"])
+            dist["functions_with_cpp_if"] += sum(1 for f in c["fns"] if f.get("cpp_if"))
             pos = {}
             for i, f in enumerate(c["fns"]):
                 pos.setdefault(f["name"], []).append(i)
@@ -1377,6 +1466,8 @@ def run(ctx):
     progs.extend(blocked)
     tables = list(table_programs(thorough, r))
     progs.extend(tables)
+    cppifs = list(cppif_programs(thorough, r))
+    progs.extend(cppifs)
     nscope = len(progs) - ncorpus
     progs.extend(exhaustive_programs(thorough, r))
     nexh = len(progs) - ncorpus - nscope
@@ -1468,7 +1559,7 @@ def run(ctx):
     plain = [p for p in cand if not (len(p["containers"]) > 1 or p["containers"][0]["path"])]
     nfull = (300 if thorough else 22) * (3 if ctx.broken else 1)
     tmplc = [p for p in cand if any(c.get("tmpl") for c in p["containers"])]
-    tabs = [p for p in tables if in_domain(p)]
+    tabs = [p for p in tables if in_domain(p)] + [p for p in cppifs if in_domain(p)][:: (1 if thorough else 2)]
     blk = [p for p in blocked if in_domain(p) and any(c.get("tmpl") for c in p["containers"])]
     pick = ([p for p in progs[:ncorpus] if in_domain(p)] + tmplc[:: max(1, len(tmplc) // (18 if thorough else 5))] +
             tabs[:: (1 if thorough else 2)] + blk[:: max(1, len(blk) // (12 if thorough else 4))] +
